@@ -1021,6 +1021,24 @@ struct Runner : IRunner {
                             h.v = s.template cast<PV<K>>();
                             done = true;
                         }
+                    } else if (route == "assign" || route == "assignmove") {
+                        // assignment to an EXISTING virtual_ptr that designates another object (of node K's own class)
+                        if constexpr (K <= J) {
+                            auto other = std::make_shared<Node<3>>();
+                            tops.push_back(other);
+                            other->id = g_node_static_id[K];
+                            other->cls = g_node_cls[K];
+                            other->oid = 0;
+                            PV<K> t(static_cast<Node<K>&>(*other));
+                            if (route == "assign") {
+                                t = s;
+                            } else {
+                                PV<J> tmp(s);
+                                t = std::move(tmp);
+                            }
+                            h.v = t;
+                            done = true;
+                        }
                     }
                 } else {
                     SV<J>& s = std::get<SV<J>>(src.v);
@@ -1049,6 +1067,24 @@ struct Runner : IRunner {
                     } else if (route == "cast") {
                         if constexpr (K >= J) {
                             h.v = s.template cast<SV<K>>();
+                            done = true;
+                        }
+                    } else if (route == "assign" || route == "assignmove") {
+                        if constexpr (K <= J) {
+                            auto other = std::make_shared<Node<3>>();
+                            tops.push_back(other);
+                            other->id = g_node_static_id[K];
+                            other->cls = g_node_cls[K];
+                            other->oid = 0;
+                            std::shared_ptr<Node<K>> ok = other;
+                            SV<K> t(ok);
+                            if (route == "assign") {
+                                t = s;
+                            } else {
+                                SV<J> tmp(s);
+                                t = std::move(tmp);
+                            }
+                            h.v = t;
                             done = true;
                         }
                     }
